@@ -300,6 +300,16 @@ def ref_bridges(adj):
     return out
 
 
+def ref_two_core(adj):
+    """the 2-core by definition: the largest subgraph in which every atom has >= 2 neighbours (repeatedly recompute degrees)"""
+    keep = set(adj)
+    while True:
+        drop = {v for v in keep if sum(1 for w in adj[v] if w in keep) < 2}
+        if not drop:
+            return {v: {w for w in adj[v] if w in keep} for v in keep}
+        keep -= drop
+
+
 def ref_canonic(ring):
     """canonical spelling by definition: of all rotations and reflections the lexicographically smallest"""
     n = len(ring)
@@ -619,6 +629,13 @@ def mol_cases(m, tag, fam, with_ref=True, max_ref_atoms=26, max_ref_rings=8):
     except KeyError:   # a ring that is not one of sssr: spelled out
         cases.append(('corr', tag, 'atoms_rings', f'c_ar_full rs{i} ' + lst([tup(zraw(n), zll(rs)) for n, rs in ar.items()])))
     cases.append(('corr', tag, 'atoms_rings_sizes', f'c_ars rs{i} {graph_term(m.atoms_rings_sizes)}'))
+    try:
+        arom = 'Ok ' + lst([f'{pos[tuple(r)]}%nat' for r in m.aromatic_rings])
+    except KeyError:   # an aromatic ring that is not one of sssr (reported by the search): an index that selects nothing equal
+        arom = 'Ok ' + lst([f'{len(sssr)}%nat'])
+    except Exception as e:
+        arom = 'Err ' + EXN.get(type(e).__name__, 'OtherError')
+    cases.append(('corr', tag, 'aromatic_rings', f'c_arom m{i} rs{i} ({arom})'))
     m.calc_labels()
     atoms_l = lst([tup(zraw(n), tup(b(m._atoms[n].in_ring), zl(sorted(m._atoms[n].ring_sizes)))) for n in m._bonds])
     bonds_l = lst([b(bd.in_ring) for nb in m._bonds.values() for bd in nb.values()])
@@ -719,7 +736,20 @@ def replay_code(m):
             f"for a,c,o in {bonds!r}: m.add_bond(a,c,o,_skip_calculation=True)\n"
             f"m.calc_labels()\nprint('sssr',m.sssr)\nprint('rings_count',m.rings_count)\n"
             f"print('atoms',[(n,a.in_ring,sorted(a.ring_sizes)) for n,a in m.atoms()])\n"
-            f"print('bonds',[(n,k,int(bd),bd.in_ring) for n,k,bd in m.bonds()])\nprint('components',m.connected_components)")
+            f"print('bonds',[(n,k,int(bd),bd.in_ring) for n,k,bd in m.bonds()])\nprint('components',m.connected_components)\nprint('skin_graph',m.skin_graph)\nprint('aromatic_rings',m.aromatic_rings)")
+
+
+CE_CLASS = Counter()   # counterexamples reported per failure class
+CE_CAP = 12            # replay files per failure class (all further ones are only counted)
+
+
+def report(ck, key, *a, **kw):
+    """ck.counterexample with at most CE_CAP replay files per failure class (the part of the key before the first colon)"""
+    cls = key.split(':')[0]
+    CE_CLASS[cls] += 1
+    if CE_CLASS[cls] <= CE_CAP or ck.match_known(key) is not None:
+        return ck.counterexample(key, *a, **kw)
+    return True
 
 
 INVALID = set()   # tags of inputs whose sssr the Python validity oracle rejected (or that raised)
@@ -748,7 +778,7 @@ def search_one(ck, m, tag, fam, ref_sizes=None, stats=None):
             stats[f'gap-family input ({family_key(fam)}): sssr raises {type(e).__name__}'] += 1
             return None
         stats['sssr raises'] += 1
-        ck.counterexample(f'sssr-raises:{gk}', f'sssr raises {type(e).__name__}', inp,
+        report(ck, f'sssr-raises:{gk}', f'sssr raises {type(e).__name__}', inp,
                           type(e).__name__, 'a ring list', 'every molecule has a cycle basis', replay_py=rp)
         return None
     # (1) validity: count, simple cycles of existing not-special bonds, independence
@@ -759,7 +789,7 @@ def search_one(ck, m, tag, fam, ref_sizes=None, stats=None):
             stats[f'gap-family input ({family_key(fam)}): sssr is not a cycle basis ({d})'] += 1
         else:
             stats['invalid basis'] += 1
-            ck.counterexample(f'sssr-{d}:{gk}',
+            report(ck, f'sssr-{d}:{gk}',
                               f'sssr is not a cycle basis ({d}) [{len(adj)} atoms / {len(edges_of(adj))} bonds]', inp, sssr,
                               'bonds-atoms+components linearly independent simple cycles', 'GF(2) elimination on edge sets (Python)', replay_py=rp)
     sizes = sorted(len(r) for r in sssr)
@@ -771,28 +801,34 @@ def search_one(ck, m, tag, fam, ref_sizes=None, stats=None):
             if fam:
                 stats['gap-family input with a non-minimum / numbering dependent ring set'] += 1
             else:
-                ck.counterexample(f'sssr-not-minimum:{gk}', 'sssr is a basis but not a minimum one (or its size multiset depends on numbering)',
+                report(ck, f'sssr-not-minimum:{gk}', 'sssr is a basis but not a minimum one (or its size multiset depends on numbering)',
                                   inp, sizes, ref_sizes, 'Horton candidates + greedy GF(2) elimination (Python)', replay_py=rp)
         elif fam:
             stats['gap-family input that nevertheless agrees with the reference'] += 1
     # (3) every ring is spelled canonically
     for r in sssr:
         if len(set(r)) == len(r) and len(r) >= 3 and tuple(r) != ref_canonic(tuple(r)):
-            ck.counterexample(f'ring-not-canonical:{gk}', 'an sssr ring is not in canonical spelling (min first, smaller neighbour second)', inp,
+            report(ck, f'ring-not-canonical:{gk}', 'an sssr ring is not in canonical spelling (min first, smaller neighbour second)', inp,
                               r, ref_canonic(tuple(r)), 'lexicographic minimum over rotations and reflections', replay_py=rp)
             break
     # (4) counts and components
     comps = ref_components(adj)
     nu = len(edges_of(adj)) - len(adj) + len(comps)
     if m.rings_count != nu:
-        ck.counterexample(f'rings_count:{gk}', 'rings_count is not bonds - atoms + components (special bonds ignored)', inp, m.rings_count, nu,
+        report(ck, f'rings_count:{gk}', 'rings_count is not bonds - atoms + components (special bonds ignored)', inp, m.rings_count, nu,
                           'own component count', replay_py=rp)
     got = sorted(sorted(c) for c in m.connected_components)
     exp = sorted(sorted(c) for c in ref_components(full))
     if got != exp:
-        ck.counterexample(f'components:{gk}', 'connected_components differ from a breadth-first reference', inp, got, exp, 'own BFS', replay_py=rp)
+        report(ck, f'components:{gk}', 'connected_components differ from a breadth-first reference', inp, got, exp, 'own BFS', replay_py=rp)
+    # (4b) pruning of acyclic parts: skin_graph is the 2-core of the full graph (every cycle kept, no terminal atom left)
+    sk = {n: set(ms) for n, ms in m.skin_graph.items()}
+    core = ref_two_core(full)
+    if sk != core:
+        report(ck, f'skin_graph:{graph_key(full)}', 'skin_graph is not the graph without (recursively) terminal atoms', inp,
+                          {n: sorted(v) for n, v in sorted(sk.items())}, {n: sorted(v) for n, v in sorted(core.items())}, 'own 2-core', replay_py=rp)
     if m.connected_components_count != len(exp):
-        ck.counterexample(f'components_count:{gk}', 'connected_components_count wrong', inp, m.connected_components_count, len(exp), 'own BFS', replay_py=rp)
+        report(ck, f'components_count:{gk}', 'connected_components_count wrong', inp, m.connected_components_count, len(exp), 'own BFS', replay_py=rp)
     # (5) marks
     if not d:
         m.calc_labels()
@@ -801,7 +837,7 @@ def search_one(ck, m, tag, fam, ref_sizes=None, stats=None):
         for n, a in m._atoms.items():
             exp_sizes = {len(r) for r in sssr if n in r}
             if a.in_ring != (n in on_cycle) or set(a.ring_sizes) != exp_sizes:
-                ck.counterexample(f'atom-marks:{gk}', 'atom in_ring / ring_sizes disagree with the ring set', inp,
+                report(ck, f'atom-marks:{gk}', 'atom in_ring / ring_sizes disagree with the ring set', inp,
                                   [n, a.in_ring, sorted(a.ring_sizes)], [n, n in on_cycle, sorted(exp_sizes)],
                                   'atom lies on a cycle (bridge finder); sizes of the sssr rings through it', replay_py=rp)
                 break
@@ -812,20 +848,24 @@ def search_one(ck, m, tag, fam, ref_sizes=None, stats=None):
                 stats['special bonds'] += 1
                 if bd.in_ring:
                     stats['special bond marked in_ring'] += 1
-                    ck.counterexample('bond-mark:special-chord', 'a special (order 8) bond whose ends lie in one ring is marked in_ring although rings '
+                    report(ck, 'bond-mark:special-chord', 'a special (order 8) bond whose ends lie in one ring is marked in_ring although rings '
                                       'ignore special bonds', inp, [n, k, True], [n, k, False], 'the bond is in no ring of the set', replay_py=rp)
                 continue
             exp_in = e not in br
             if bd.in_ring != exp_in or (e in ring_bonds) != exp_in:
-                ck.counterexample(f'bond-marks:{gk}', 'bond in_ring disagrees with the ring set', inp, [n, k, bd.in_ring, e in ring_bonds], [n, k, exp_in],
+                report(ck, f'bond-marks:{gk}', 'bond in_ring disagrees with the ring set', inp, [n, k, bd.in_ring, e in ring_bonds], [n, k, exp_in],
                                   'bond is not a bridge of the not-special graph <-> it is a bond of some basis ring', replay_py=rp)
                 break
         ar = m.atoms_rings
         if {n: [tuple(r) for r in rs] for n, rs in ar.items()} != {n: [tuple(r) for r in sssr if n in r] for n in on_cycle}:
-            ck.counterexample(f'atoms_rings:{gk}', 'atoms_rings is not {atom: rings containing it}', inp, dict(ar), 'rings per atom', 'recomputed', replay_py=rp)
-        arom = m.aromatic_rings
-        if any(tuple(r) not in {tuple(x) for x in sssr} for r in arom):
-            ck.counterexample(f'aromatic_rings:{gk}', 'aromatic_rings is not a subset of sssr', inp, list(arom), sssr, 'subset', replay_py=rp)
+            report(ck, f'atoms_rings:{gk}', 'atoms_rings is not {atom: rings containing it}', inp, dict(ar), 'rings per atom', 'recomputed', replay_py=rp)
+        arom = [tuple(r) for r in m.aromatic_rings]
+        order = {(n, k): int(bd) for n, k, bd in m.bonds()}
+        order.update({(k, n): o for (n, k), o in list(order.items())})
+        exp_arom = [tuple(r) for r in sssr if all(order.get((x, y)) == 4 for x, y in zip(r, tuple(r[1:]) + tuple(r[:1])))]
+        if arom != exp_arom:
+            report(ck, f'aromatic_rings:{gk}', 'aromatic_rings is not the list of sssr rings all of whose bonds are aromatic', inp, arom, exp_arom,
+                              'recomputed from the bond iterator', replay_py=rp)
     return None if d else sizes
 
 
@@ -913,7 +953,7 @@ def edit_search(ck, m0, tag, rng, stats):
                 stats['edit: different but valid basis of the same sizes'] += 1
                 continue
             inp = {'tag': tag, 'start atoms': list(m0._atoms), 'start bonds': [(n, k, int(bd)) for n, k, bd in m0.bonds()], 'edit': what}
-            ck.counterexample(f'stale-after-edit:{op}:{key}', f'after {op} the cached / stored ring view `{key}` differs from the molecule rebuilt from scratch',
+            report(ck, f'stale-after-edit:{op}:{key}', f'after {op} the cached / stored ring view `{key}` differs from the molecule rebuilt from scratch',
                               inp, got[key], exp[key], 'rebuild from scratch with the same atoms and bonds')
             return
 
@@ -1072,6 +1112,7 @@ def run(ck):
     rng = random.Random(f'{ck.seed}:c06')
     batch = CoqBatch()
     INVALID.clear()
+    CE_CLASS.clear()
     GAP_TAGS.clear()
     sent = set()
     stats = Counter()
@@ -1150,8 +1191,15 @@ def run(ck):
     timing['exhaustive small graphs (python)'] = round(time.time() - t0, 1)
     t0 = time.time()
     # ---- generated / corpus / test-set molecules
+    n_lipo = 0
     for tag, m in input_stream(ck):
-        handle(tag, m, to_coq=True, renumber=2 if quick else 3)
+        # quick: the Python search sees every input, Coq (verified checker + correspondence) the first 100 corpus molecules
+        # and everything else; thorough: everything
+        to_coq = True
+        if tag.startswith('lipo:'):
+            n_lipo += 1
+            to_coq = (not quick) or n_lipo <= 100
+        handle(tag, m, to_coq=to_coq, renumber=2 if quick else 3)
         if len(m) <= 60:
             for t in range(2):
                 edit_search(ck, m, tag, erng, stats)
@@ -1177,7 +1225,7 @@ def run(ck):
                     for a, c in es:
                         adj.setdefault(a, set()).add(c)
                         adj.setdefault(c, set()).add(a)
-                    ck.counterexample(f'exhaustive-{what}:{graph_key(adj)}', f'_sssr on an exhaustively enumerated graph: {what}', {'edges': es}, rs, ref,
+                    report(ck, f'exhaustive-{what}:{graph_key(adj)}', f'_sssr on an exhaustively enumerated graph: {what}', {'edges': es}, rs, ref,
                                       'pure-Python reference',
                                       replay_py=f"from chython.algorithms.rings import _sssr\nadj={adj!r}\nprint(_sssr(adj, {len(es) - len(adj) + 1}))")
     # ---- helpers
@@ -1196,7 +1244,7 @@ def run(ck):
     chk_fail = [f for f in failing if f[0] == 'checker']
     ora_fail = [f for f in failing if f[0] == 'oracle']
     ck.oblige('correspondence: _connected_components, _skin_graph, rings_count, not_special_connectivity, _canonic_ring, _ring_scissors, '
-              '_ring_adjacency, atoms_rings(_sizes), ring marks of calc_labels == Coq model', ok and not corr_fail, 'correspondence',
+              '_ring_adjacency, atoms_rings(_sizes), aromatic_rings, ring marks of calc_labels == Coq model', ok and not corr_fail, 'correspondence',
               log[-1500:] or repr(corr_fail[:5]))
     rejected = {tag for _, tag, _ in chk_fail}
     only_coq = sorted(rejected - INVALID)            # rejected by the verified checker, accepted by the Python oracle
@@ -1213,13 +1261,14 @@ def run(ck):
     for kind, tag, payload in chk_fail:
         if tag in only_coq and tag not in GAP_TAGS:
             # a concrete implementation output that the verified checker rejects (the Python oracle did not see the defect)
-            ck.counterexample(f'sssr-rejected-by-verified-checker:{tag[:300]}', 'the verified checker is_cycle_basis rejects this sssr output',
+            report(ck, f'sssr-rejected-by-verified-checker:{tag[:300]}', 'the verified checker is_cycle_basis rejects this sssr output',
                               {'tag': tag}, payload, 'a cycle basis', 'is_cycle_basis evaluated inside Coq (theorem C06_basis_checker_sound)')
     if only_py:
         ck.unchecked('the Python validity oracle rejects sssr outputs that the verified checker accepts', repr(only_py[:5]))
     for kind, tag, payload in ora_fail:
-        ck.counterexample(f'sssr-not-minimum-coq:{tag[:200]}', 'total ring size differs from the Coq reference basis mcb_ref (or mcb_ref is no basis)',
+        report(ck, f'sssr-not-minimum-coq:{tag[:200]}', 'total ring size differs from the Coq reference basis mcb_ref (or mcb_ref is no basis)',
                           {'tag': tag}, payload if isinstance(payload, dict) else str(payload), 'total_size (mcb_ref g)', 'mcb_ref evaluated inside Coq')
     ck.extra['search_stats'] = dict(stats)
+    ck.extra['counterexamples_per_class'] = dict(CE_CLASS)
     ck.extra['proved'] = proved
     ck.extra['tied'] = bool(ok and not corr_fail)
